@@ -139,6 +139,7 @@ def generate(seed, run, tier):
                 out.insert(idx[-1] + 1, ob)
                 continue
         out.insert(rf.randint(0, len(out)), ob)
+    out = sched.add_bystanders(cfg, out, Stream(seed, ID, run, 'bystanders'))
     return {'cfg': cfg, 'ops': out, 'run_seed': mix(seed, ID, run, 'run')}
 
 
